@@ -301,3 +301,103 @@ def _c15(bindir, tier, seed):
 @plan("C16")
 def _c16(bindir, tier, seed):
     return q_jobs(bindir, "C16", tier, seed, seq_enum=False, outcomes=("oe", 7, 10), focus="error", windows=False)
+
+
+# ---- C18 ---------------------------------------------------------------------------------------------------
+meta("C18", level="exploration",
+     rule="observer 1 (decider in quick): real threads run real SingletonHolder operations under a token-passing scheduler fed by the tracing shim of hook H1; a DFS over the scheduler's "
+          "choices enumerates every interleaving (single atomic/cell access granularity, invocation is a scheduling point too) of all multisets of 2-3 threads x 1 op and 2 threads x <= 2 ops "
+          "over {set(v), get, is_set}, plus two racing setters with a double reader (thorough adds 3 threads with a 2-op thread). Each trace is judged by a set-once-register value oracle over "
+          "operation intervals (one winner, same fully constructed Arc everywhere, winner not preceded by a completed set, nothing visible before any set, visible after the winning set "
+          "completed, payload dropped exactly once) and by a FastTrack-style vector-clock race check using the orderings actually passed (release store/RMW publishes, relaxed store resets, "
+          "RMW continues a release sequence, failed CAS = load with the failure ordering). Observer 2: Miri (-Zmiri-many-seeds, weak-memory emulation, data-race detector, UB checks on the "
+          "cell) on holder_stress with hooks off. Observer 3 (thorough): ThreadSanitizer build of holder_stress. distinct = (configuration, schedule) pairs",
+     assumptions=["DRF argument: only one atomic location exists, so if no enumerated SC interleaving has a happens-before race, weak-memory executions of these configurations add no behaviour; Miri's weak-memory emulation is the independent check of this",
+                  "configurations with >= 4 threads or >= 3 operations per thread are not explored; configurations whose interleavings exceed the per-configuration schedule cap are truncated (reported, exhaustive then false)",
+                  "if state.rs synchronises through a primitive the shim does not route, the vector-clock observer switches itself off and Miri/TSan decide race freedom"],
+     exhaustive_scope="all SC interleavings of the listed configurations (only when no configuration was truncated)",
+     min_evaluations=2000, must_observe={"cell_accesses_checked": 1000, "hb_edges_established": 500, "schedules_with_reader_overlapping_LOADING": 100, "configurations_explored": 30, "miri_seeds_completed": 8})
+
+
+def miri_job(name, prop, binname, prog_args, seeds, seed, timeout, extra_flags="", ok_marker=" ok ", fail_marker="ORACLE-FAILED", what="executions"):
+    """A `cargo +nightly miri run` of a harness binary with hooks off, -Zmiri-many-seeds. The parser turns Miri's own
+    diagnostics (data race / UB / deadlock) and the program's oracle line into a report."""
+    lo = (seed * 1000) % 100000
+    flags = "-Zmiri-many-seeds=%d..%d -Zmiri-preemption-rate=0.2 %s" % (lo, lo + seeds, extra_flags)
+    argv = ["cargo", "+nightly", "miri", "run", "--offline", "--manifest-path", os.path.join(VERIF, "harness", "Cargo.toml"), "--bin", binname, "--"] + prog_args
+    env = {"MIRIFLAGS": flags.strip(), "CARGO_TARGET_DIR": os.path.join(TARGET, "miri")}
+
+    def parse(job):
+        import re
+        out = job.output
+        oks = [l for l in out.splitlines() if ok_marker in l and binname in l]
+        viols = []
+        m = re.search(r"error: Undefined Behavior: ([^\n]*)", out)
+        if m:
+            where = re.search(r"-->\s*(\S+)", out[m.start():])
+            cls = "data-race" if "Data race" in m.group(1) else "undefined-behaviour"
+            viols.append({"property": prop, "rule": "miri", "class": cls, "detail": "Miri: %s at %s" % (m.group(1)[:300], where.group(1) if where else "?"),
+                          "replay_args": [], "trace": {"miri_output_tail": out[-3000:], "MIRIFLAGS": flags}})
+        elif "the evaluated program deadlocked" in out:
+            viols.append({"property": prop, "rule": "miri", "class": "deadlock", "detail": "Miri: the evaluated program deadlocked (a wait that can never be satisfied)",
+                          "replay_args": [], "trace": {"miri_output_tail": out[-3000:], "MIRIFLAGS": flags}})
+        elif fail_marker in out:
+            line = [l for l in out.splitlines() if fail_marker in l][0]
+            viols.append({"property": prop, "rule": "value-oracle", "class": "oracle-failed-under-miri", "detail": line[:400], "replay_args": [], "trace": {"MIRIFLAGS": flags}})
+        rep = {"evaluations": len(oks), "distinct": ["miri-%s-%s" % (binname, l.split(" ok ", 1)[-1]) for l in oks], "distinct_count": len(set(oks)), "trivial": 0,
+               "samples": [{"miri": binname, "flags": flags, "program_output": l} for l in oks[:2]], "violations": viols, "violation_count": len(viols),
+               "obs": {"miri_seeds_completed": len(oks)}, "notes": [], "inconclusive": []}
+        if not viols and (job.rc != 0 or len(oks) == 0):
+            rep["inconclusive"].append("miri run of %s exited with %s and %d completed seeds: %s" % (binname, job.rc, len(oks), out[-500:].replace("\n", " | ")))
+        return rep
+
+    return Job(name, argv, timeout, env=env, parser=parse, cwd=os.path.join(VERIF, "harness"))
+
+
+def tsan_job(name, prop, binname, prog_args, timeout, runs=1):
+    """Runs a binary from the ThreadSanitizer build (built on demand by ./check). Reports are de-duplicated by their first in-repo frame."""
+    tsan_bin = os.path.join(TARGET, "tsan", "x86_64-unknown-linux-gnu", "release", binname)
+    argv = ["/bin/sh", "-c", "for i in $(seq %d); do %s %s || echo EXIT=$?; done" % (runs, tsan_bin, " ".join(prog_args))]
+    env = {"TSAN_OPTIONS": "halt_on_error=0 report_signal_unsafe=0 exitcode=66"}
+
+    def parse(job):
+        import re
+        out = job.output
+        oks = [l for l in out.splitlines() if " ok " in l and binname in l]
+        blocks = re.findall(r"WARNING: ThreadSanitizer: ([^\n]*)\n(.*?)(?=\n==================|\Z)", out, re.S)
+        viols = []
+        seen = set()
+        for title, body in blocks:
+            frames = re.findall(r"#\d+ (\S+) ([^\s]+/(?:repo|cadence[^/]*)/[^\s:]+:\d+)", body)
+            key = (title.split("(")[0].strip(), frames[0][1] if frames else body[:80])
+            if key in seen:
+                continue
+            seen.add(key)
+            viols.append({"property": prop, "rule": "tsan", "class": "data-race" if "data race" in title else "tsan-report", "detail": "ThreadSanitizer: %s; first in-repo frame %s" % (title[:200], key[1]),
+                          "replay_args": [], "trace": {"report": body[:3000]}})
+        rep = {"evaluations": len(oks), "distinct": ["tsan-%s-%d" % (binname, i) for i in range(len(oks))], "distinct_count": len(oks), "trivial": 0,
+               "samples": [{"tsan": binname, "program_output": l} for l in oks[:2]], "violations": viols, "violation_count": len(viols),
+               "obs": {"tsan_runs_completed": len(oks), "tsan_reports": len(blocks)}, "notes": [], "inconclusive": []}
+        if "ORACLE-FAILED" in out:
+            rep["violations"].append({"property": prop, "rule": "value-oracle", "class": "oracle-failed-under-tsan", "detail": [l for l in out.splitlines() if "ORACLE-FAILED" in l][0][:400], "replay_args": [], "trace": {}})
+            rep["violation_count"] += 1
+        if not rep["violations"] and len(oks) < runs:
+            rep["inconclusive"].append("tsan run of %s completed %d of %d runs: %s" % (binname, len(oks), runs, out[-500:].replace("\n", " | ")))
+        return rep
+
+    j = Job(name, argv, timeout, env=env, parser=parse)
+    j.needs_tsan = True
+    return j
+
+
+@plan("C18")
+def _c18(bindir, tier, seed):
+    if tier == QUICK:
+        jobs = shards(bindir, "holder_driver", "C18", seed, NCPU - 2, ["--level", "core", "--max-schedules", "3000"], 1200)
+        jobs.append(miri_job("C18-miri-holder", "C18", "holder_stress", ["3", "2", "2", "3"], 16, seed, 1500))
+        return jobs
+    jobs = shards(bindir, "holder_driver", "C18", seed, NCPU, ["--level", "full", "--max-schedules", "400000"], 7200)
+    for k in range(4):
+        jobs.append(miri_job("C18-miri-holder-%d" % k, "C18", "holder_stress", [["4", "2", "2", "3"], ["3", "3", "2", "2"], ["3", "2", "3", "4"], ["6", "1", "3", "3"]][k], 64, seed + 17 * k, 7200))
+    jobs.append(tsan_job("C18-tsan-holder", "C18", "holder_stress", ["2000", "2", "3", "6"], 3600, runs=10))
+    return jobs
